@@ -452,6 +452,31 @@ func fixed() [][]model.Node {
 		add(countdown, emit(call("cd", model.Lit{V: k})))
 		add(sum, emit(call("sum", model.Lit{V: k})))
 	}
+	// self-recursion whose parameters (and lets) are read AFTER the inner call has returned: every invocation has
+	// its own fresh scope
+	lit := func(x interface{}) model.Expr { return model.Lit{V: x} }
+	bin := func(op string, l, r model.Expr) model.Expr { return model.Bin{Op: op, L: l, R: r} }
+	sumAfter := let("sa", model.FnLit{Params: []string{"n"}, Body: []model.Node{
+		sif(bin("<=", v("n"), lit(0)), ret(lit(0))),
+		ret(bin("+", call("sa", bin("-", v("n"), lit(1))), v("n")))}})
+	fib := let("fib", model.FnLit{Params: []string{"n"}, Body: []model.Node{
+		sif(bin("<", v("n"), lit(2)), ret(v("n"))),
+		ret(bin("+", call("fib", bin("-", v("n"), lit(1))), call("fib", bin("-", v("n"), lit(2)))))}})
+	viaLet := let("vl", model.FnLit{Params: []string{"n"}, Body: []model.Node{
+		sif(bin("==", v("n"), lit(0)), ret(lit("."))),
+		let("mine", bin("+", lit("m"), v("n"))),
+		let("r", call("vl", bin("-", v("n"), lit(1)))),
+		ret(bin("+", bin("+", v("r"), v("mine")), v("n")))}})
+	swap := let("sw", model.FnLit{Params: []string{"a", "b", "n"}, Body: []model.Node{
+		sif(bin("==", v("n"), lit(0)), ret(v("a"))),
+		let("r", call("sw", v("b"), v("a"), bin("-", v("n"), lit(1)))),
+		ret(bin("+", bin("+", bin("+", v("r"), lit("/")), v("a")), v("b")))}})
+	for _, k := range []int{0, 1, 2, 4, 7} {
+		add(sumAfter, emit(call("sa", lit(k))))
+		add(fib, emit(call("fib", lit(k))))
+		add(viaLet, emit(call("vl", lit(k))))
+		add(swap, emit(call("sw", v("a"), v("b"), lit(k))), T("|"), emit(call("sw", lit("x"), lit("y"), lit(k))))
+	}
 	add(let("noisy", model.FnLit{Params: []string{"x"}, Body: []model.Node{T("before"), emit(v("x")), ret(model.Lit{V: "val"}), T("after")}}),
 		emit(call("noisy", model.Lit{V: "arg"})), T("|"), emit(model.Bin{Op: "==", L: call("noisy", model.Lit{V: 1}), R: model.Lit{V: "val"}}))
 	// a function returning a function
@@ -460,7 +485,7 @@ func fixed() [][]model.Node {
 	return out
 }
 
-const rule = "(E) 41 fixed programs: swapped and rotated namesake arguments, nested calls, results used in + == < ! || and if tests, emission inside if/for blocks with content after it, aliasing, higher-order application, a function returning a function, recursion to depth 25, first-return-wins with dead code; each in the tag-per-statement and in the compact single-tag layout. (R) generated functions of 0-4 parameters (families int/string/bool) whose bodies are if/else-if/else decision chains over the parameters nested to depth 3, every path ending in return <unique label>, with dead code after returns and local lets; argument tuples from literals (incl. nil), plain variables, caller variables NAMED LIKE THE FUNCTION'S OWN PARAMETERS, and calls of the SAME function in any argument position; 12 use sites (emit, let-then-emit, ==, if test, +, string concat, argument of a user function / Go helper, inside if / for blocks with text after, higher-order through a parameter). (R2) call SEQUENCES in one render: 2-3 functions of one signature and 2-5 calls, each direct, through a higher-order function handed any of them, through a parameter NAMED LIKE an already-called function, through two function parameters in one body, or through an alias rebound with let / = between calls, so that one called name resolves to different functions at different moments. Oracle: reference interpreter (arguments evaluated in the caller's scope, parameters bound to argument values, fresh scope, first return reached). Non-trivial: every generated program (distinct by template text)."
+const rule = "(E) 61 fixed programs: self-recursion whose parameters and lets are read after the inner call returned (sum, fibonacci, a let kept across the call, swapped arguments), swapped and rotated namesake arguments, nested calls, results used in + == < ! || and if tests, emission inside if/for blocks with content after it, aliasing, higher-order application, a function returning a function, recursion to depth 25, first-return-wins with dead code; each in the tag-per-statement and in the compact single-tag layout. (R) generated functions of 0-4 parameters (families int/string/bool) whose bodies are if/else-if/else decision chains over the parameters nested to depth 3, every path ending in return <unique label>, with dead code after returns and local lets; argument tuples from literals (incl. nil), plain variables, caller variables NAMED LIKE THE FUNCTION'S OWN PARAMETERS, and calls of the SAME function in any argument position; 12 use sites (emit, let-then-emit, ==, if test, +, string concat, argument of a user function / Go helper, inside if / for blocks with text after, higher-order through a parameter). (R2) call SEQUENCES in one render: 2-3 functions of one signature and 2-5 calls, each direct, through a higher-order function handed any of them, through a parameter NAMED LIKE an already-called function, through two function parameters in one body, or through an alias rebound with let / = between calls, so that one called name resolves to different functions at different moments. Oracle: reference interpreter (arguments evaluated in the caller's scope, parameters bound to argument values, fresh scope, first return reached). Non-trivial: every generated program (distinct by template text)."
 
 func setup(t *testing.T) *vk.Run {
 	r := vk.Start(t, "C16", rule,
